@@ -12,4 +12,4 @@ git -C /repo worktree add -f --detach "$W/wt" "$BASE" >/dev/null 2>&1 || { echo 
 git -C "$W/wt" apply "$PATCH" || { echo "patch does not apply to $BASE"; exit 3; }
 (cd "$W/wt" && go build ./... && go test -vet=off -count=1 ./... >/dev/null 2>&1) || { echo "patched tree does not build or fails tests"; exit 3; }
 mkdir -p "$W/verif"; cp "$HERE/known_findings.json" "$W/verif/"
-"$HERE/bin/ucfgcheck" -repo "$W/wt" -verif "$W/verif" -prop "$PROPS" -tier quick -nocontrols 2>&1 | grep -E "^(FINDING|VIOLATION|UNDECIDED|SUMMARY|TYPE-ERROR)" | sed "s|$W/wt/||g" | cut -c1-420
+"$HERE/bin/ucfgcheck" -repo "$W/wt" -verif "$W/verif" -prop "$PROPS" -tier quick -nocontrols 2>&1 | grep -E "^(FINDING|VIOLATION|UNDECIDED|SUMMARY|TYPE-ERROR|NOTE property=C.. normalisation)" | sed "s|$W/wt/||g" | cut -c1-420
